@@ -7,12 +7,14 @@ Only property theorems live here; helper lemmas are in `Model/AssemblyLemmas.lea
 the running Python by the recorded-component correspondence of `tools/props/C13.py`.  All theorems hold for ALL
 lists of panels / stiffeners, all series orders and all component matrices.
 
-What is NOT proved here (checked numerically on the implementation by the plugin only): that a kernel asked to
-write at `(row0, col0)` returns its stand-alone matrix shifted there; additivity of the skin kernels over adjacent
+What is NOT proved here (checked numerically on the implementation by the plugin only): that a CONNECTION or STIFFENER kernel
+asked to write at `(row0, col0)` returns its stand-alone matrix shifted there (for the PANEL kernels it is proved from the
+loop-nest model: `panel_kernel_placement`); additivity of the skin kernels over adjacent
 `y` intervals (hypothesis `hadd` of `skin_split_invariant`); positive semi-definiteness of a stiffener's
 contribution (its symmetry is proved: `stiffener_contribution_symmetric`).
 -/
 import CompmechVerif.Model.AssemblyLemmas
+import CompmechVerif.Model.PanelLoopLemmas
 import Mathlib.Algebra.Field.Rat
 import Mathlib.Tactic.NormNum
 
@@ -253,5 +255,23 @@ example : (bayBlocks MatKind.kM
     (fun b => (b.tag, b.row0, b.col0)) =
     [(tagPanel, 0, 0), (tagBase, 0, 0), (tagFlange, 12, 12), (tagBase, 18, 18), (tagFlange, 21, 21),
      (tagBase, 30, 30), (tagFlange, 36, 36)] := rfl
+
+
+/-! ### placement of the panel kernels (loop nest of Model/PanelLoop.lean, tied to the source by `LoopSchema`) -/
+
+open Compmech.PanelLoop in
+/-- a panel kernel (`fk0`, `fkG0`, `fkM`, … of any panel model, any series orders `m, n`, any entry expressions) asked to write
+at `row0 = col0 = r0` returns exactly its stand-alone result shifted by `(r0, r0)`: what `assembly_eq_sum_of_placed` and
+`bay_eq_sum_of_placed` assume of a component matrix -/
+theorem panel_kernel_placement (num m n r0 : Nat) (e : Fin num → Fin num → Nat → Nat → Nat → Nat → K) :
+    loopNest num m n r0 r0 e = shift r0 r0 (loopNest num m n 0 0 e) :=
+  loopNest_shift num m n r0 e
+
+open Compmech.PanelLoop in
+/-- … and only there: with `row0 ≠ col0` the `row > col` skip compares global positions, so the result is NOT the shifted
+stand-alone result (kernel-checked instance: one field, m = 2, n = 1, row0 = 2, col0 = 0) -/
+theorem panel_kernel_placement_offdiagonal_counterexample :
+    (loopNest 1 2 1 2 0 (fun _ _ _ _ _ _ => (1 : ℚ))).length ≠
+      (shift 2 0 (loopNest 1 2 1 0 0 (fun _ _ _ _ _ _ => (1 : ℚ)))).length := by decide
 
 end Compmech.Asm.C13
